@@ -78,7 +78,7 @@ func (e *Engine) analyse(fn *ssa.Function, blk *Block) (rep *FuncReport) {
 			rep.Queries = e.queries
 		}
 	}()
-	st := &State{Cells: map[*Cell]Val{}, Heap: map[string]string{}, Escaped: map[string]bool{}, Ghost: map[string]Val{}, Facts: map[string]string{}, Counters: map[string]T{}, Entry: map[string]Val{}}
+	st := &State{Cells: map[*Cell]Val{}, Heap: map[string]string{}, Escaped: map[string]bool{}, Ghost: map[string]Val{}, Facts: map[string]string{}, Counters: map[string]T{}, Entry: map[string]Val{}, Shared: map[*Cell]string{}}
 	fr := &Frame{Fn: fn, Vals: map[ssa.Value]Val{}, Cells: map[string]*Cell{}, LoopSeen: map[int]bool{}}
 	for _, p := range fn.Params {
 		v := e.freshVal(st, p.Type(), "in_"+p.Name())
